@@ -175,7 +175,10 @@ func (p *Perturber) mutate(root *Node, m mapRef) {
 		p.note("%s.%s->%s", m.role, keyClass(m, key), nk)
 	case "retype":
 		// change the type of a container value
-		n.Pairs[pi].Val = Raw(p.pick([]string{"{}", "[]", "[a, b]", "{a: b}", "x", "5", "null", "- - a", "[[a]]", "[{a: b}]", "[null]", "[5]", "{a: {b: c}}", "{a: [b]}", "{a: 5}", "{a: null}", "{5: a}", "{a: true}"}, "retype"))
+		n.Pairs[pi].Val = Raw(p.pick([]string{"{}", "[]", "[a, b]", "{a: b}", "x", "5", "null", "- - a", "[[a]]", "[{a: b}]", "[null]", "[5]", "{a: {b: c}}", "{a: [b]}", "{a: 5}", "{a: null}", "{5: a}", "{a: true}",
+			// explicit tags that contradict the node kind or the field type
+			"!!str [a]", "!!str {a: b}", "!!map []", "!!seq {}", "!!int x", "!!str 5", "!!bool yes", "!!null x", "!!float 1", "!!binary aGk=", "!!timestamp 2024-01-01", "!!set {a}", "! x",
+			"{a: !!str [b]}", "{a: !!str {b: c}}", "{a: !!int 5}", "{a: !!null x}", "[!!str [a]]"}, "retype"))
 		p.note("%s.%s retype", m.role, keyClass(m, key))
 	case "merge":
 		// a merge key whose value is written in place: values YAML cannot merge, mappings that bring in
@@ -241,6 +244,16 @@ func (p *Perturber) mutate(root *Node, m mapRef) {
 				continue
 			}
 			if m.role == roleGroup {
+				if rapid.IntRange(0, 3).Draw(t, p.lbl("selfrules")) == 0 {
+					// `rules: *anchor` pointing at something that is no list of rules: the group itself
+					for i := range n.Pairs {
+						if keyText(n.Pairs[i].Key) == "rules" {
+							n.Pairs[i].Val = alias
+							p.note("group rules-alias-to-group")
+							return
+						}
+					}
+				}
 				rp.Val.Items = append(rp.Val.Items, alias)
 				p.note("group alias")
 				return
@@ -367,7 +380,7 @@ func (p *Perturber) TextMutate(src string, k int) string {
 			return src
 		}
 		li := rapid.IntRange(0, len(lines)-1).Draw(t, p.lbl("line"))
-		switch rapid.IntRange(0, 9).Draw(t, p.lbl("tmop")) {
+		switch rapid.IntRange(0, 10).Draw(t, p.lbl("tmop")) {
 		case 0: // delete line
 			lines = append(lines[:li], lines[li+1:]...)
 			p.note("text del-line")
@@ -413,6 +426,9 @@ func (p *Perturber) TextMutate(src string, k int) string {
 				lines[j] += "\r"
 			}
 			p.note("text crlf")
+		case 10: // one physical line beyond 64 KiB (bufio.Scanner's token limit): a comment, invisible to YAML
+			lines = append(lines[:li], append([]string{"# " + strings.Repeat("0123456789abcdef", 4400)}, lines[li:]...)...)
+			p.note("text long-line")
 		}
 		src = strings.Join(lines, "\n")
 	}
